@@ -129,9 +129,24 @@ def add_edges(spec, rnd, uniform):
         sg, so, sv = rnd.choice(srcs)
         tg, to, tv = rnd.choice(tgts)
         S, T = group[sg], group[tg]
-        pattern = rnd.choice(['all', 'one_each', 'dense', 'sparse', 'k_each'])
+        pattern = rnd.choice(['all', 'one_each', 'dense', 'sparse', 'k_each', 'perm', 'perm'])
         pairs = []
-        if pattern == 'all':
+        if pattern == 'perm':
+            # one-to-one wiring (ring / permutation): every target receives exactly one edge; listing order of the edges is
+            # the node order, a shuffled order, or node order with the interior scrambled
+            k = min(len(S), len(T))
+            src = rnd.sample(S, k)
+            if rnd.random() < 0.4 and S is T or (sg == tg):
+                src = [S[(i + 1) % len(S)] for i in range(len(S))][:k]     # ring
+            pairs = list(zip(src, T[:k]))
+            order = rnd.choice(['node', 'shuffled', 'interior'])
+            if order == 'shuffled':
+                rnd.shuffle(pairs)
+            elif order == 'interior' and len(pairs) > 3:
+                mid = pairs[1:-1]
+                rnd.shuffle(mid)
+                pairs = [pairs[0]] + mid + [pairs[-1]]
+        elif pattern == 'all':
             pairs = [(a, b) for a in S for b in T]
         elif pattern == 'one_each':
             pairs = [(rnd.choice(S), b) for b in T]
